@@ -38,6 +38,12 @@ func TestC03(t *testing.T) {
 	m.Assume("executable specification h/ref/chachastream (RFC 8439 §2.3 block function by byte position, HChaCha20/XChaCha20 derivation), validated by RFC 8439 §2.1.1/2.3.2/2.4.2/2.6.2, draft-xchacha §2.2.1 and libsodium xchacha20 vectors in its own test; libsodium crypto_stream_*_xor_ic / crypto_core_hchacha20 as witness (oracle conflicts are inconclusive, not violations)")
 	m.Assume("documented panics (chacha_generic.go doc comments): SetCounter panics if counter is less than the current value; XORKeyStream must not wrap the 32-bit block counter. Post-panic Cipher state is undocumented, so a history ends at its first panic")
 	m.Note("amd64 build of golang.org/x/crypto/chacha20 is pure Go (chacha_noasm.go: bufSize = 64, no assembly): single code path")
+	if mon.RaceBuild {
+		// race variant: only the concurrency class (the race detector costs 5–15×)
+		m.Rule("race-detector build: concurrency class only — per round 4–8 goroutines, each with its own chacha20.Cipher (never shared) running a precomputed XORKeyStream/SetCounter history, plus HChaCha20 loops on shared read-only inputs; start barrier, inner barrier after the first call, results judged after join against the single-threaded reference; every 4th round under GOMAXPROCS(1). Interleavings are scheduler-chosen")
+		c03Concurrent(m)
+		return
+	}
 	sodium := sodiumstream.Available()
 	if !sodium {
 		m.Note("libsodium witness unavailable (built without cgo)")
@@ -54,6 +60,9 @@ func TestC03(t *testing.T) {
 		h.kind, h.dstLong = 8, true
 		h.run()
 	})
+
+	// distinct Ciphers / package-level HChaCha20 used by several goroutines at once
+	c03Concurrent(m)
 
 	// HChaCha20 as exported (the XChaCha20 subkey derivation on its own)
 	m.Cases("hchacha", m.N(400, 5000), func(i int64, r *rand.Rand) {
